@@ -14,7 +14,15 @@ RULE = ("histories of Library.add (single, list, fail_on_duplicate_key), remove 
         "differing only in letter case, 'ID' / 'ENTRYTYPE', 'None', non-ASCII): all histories to depth 2 over the 32-call "
         "alphabet and depth 3 over 11 calls for fixed key pairs (quick; one level deeper in thorough) plus random "
         "histories with random key pairs; an oracle-only stream uses keys that are not plain str (None, 0, False, 0.0, "
-        "(), b'', str subclasses that are falsy / report length 0). After EVERY call all eight views are compared with "
+        "(), b'', str subclasses that are falsy / report length 0). USER SUBCLASSES: every block of the universe may be "
+        "an instance of a trivial user subclass of its class (harness/props/userclasses.py: SubEntry, SubString, "
+        "SubPreamble, SubExplicitComment, SubImplicitComment; a subclass of ParsingFailedBlock) or of a subclass of that "
+        "subclass, next to plain blocks with the same key: fixed and per-run random class assignments x all histories to "
+        "depth 2 over the 32-call alphabet and depth 3 over 11 calls (quick; depth 3 over 32 / 20 calls and depth 4 in "
+        "thorough) plus random histories with a random class per block (also with boundary keys, constructor, non-str "
+        "keys). A subclass instance is encoded for the model like a plain instance of its base class (the library may "
+        "only use isinstance); when two structurally equal twins get different classes they are unequal for Python "
+        "but not for the model, and the case is judged by the oracle alone. After EVERY call all eight views are compared with "
         "the model by object identity and checked against the property. distinct = distinct history; non-trivial = "
         "some call wraps a duplicate, raises, removes or replaces a held block")
 TRUSTED = ["object identity observed with id() on objects kept alive by the harness; wrapper objects are numbered by "
@@ -66,6 +74,97 @@ class Len0Str(str):
 
 class SubStr(str):
     pass
+
+
+# User subclasses.  An input may carry "sub": one level per universe block: 0 = the plain class, 1 = the trivial
+# subclass of userclasses.py, 2 = a trivial subclass of that subclass.  For the property a SubEntry IS an Entry block, a
+# SubString a String block, and so on (isinstance); nothing lets the exact class matter.
+TWINS = [(0, 1), (4, 9), (6, 10)]         # structurally equal pairs of the universe (the second ones only in UNI13)
+SUB_FIXED8 = [
+    ("all", [1, 1, 1, 1, 1, 1, 1, 1]),
+    ("dup-is-sub", [0, 0, 1, 0, 0, 1, 0, 0]),            # plain first holders, the same-key rivals are subclass instances
+    ("first-is-sub", [1, 1, 0, 0, 1, 0, 1, 1]),          # subclass holders, plain rivals
+    ("levels", [2, 2, 1, 0, 2, 1, 1, 2]),                # subclass of the subclass v. subclass on one key
+    ("mixed-twins", [1, 0, 1, 0, 0, 1, 0, 0]),           # E0 and its twin differ in class: oracle only
+]
+
+
+def rand_levels(rng, n):
+    """one class level per universe block; mostly twin-consistent so that the model comparison applies"""
+    r = rng.random()
+    if r < 0.15:
+        lv = [1] * n
+    elif r < 0.25:
+        lv = [rng.choice([1, 2]) for _ in range(n)]
+    else:
+        p0 = rng.choice([0.3, 0.5, 0.7])
+        lv = [0 if rng.random() < p0 else rng.choice([1, 1, 2]) for _ in range(n)]
+    if rng.random() < 0.75:
+        for a, b in TWINS:
+            if b < n:
+                lv[b] = lv[a]
+    if not any(lv):
+        lv[rng.randrange(n)] = 1
+    return lv
+
+
+def twins_consistent(lv):
+    return all(b >= len(lv) or lv[a] == lv[b] for a, b in TWINS)
+
+
+_SUBCLS = {}
+
+
+def sub_classes(M):
+    """base class -> [plain, trivial subclass, subclass of the subclass], built from the tree under test"""
+    if not _SUBCLS:
+        from props import userclasses
+        uc = userclasses.get()
+
+        class SubFailed(M.ParsingFailedBlock):
+            pass
+
+        for base, sub in ((M.Entry, uc.SubEntry), (M.String, uc.SubString), (M.Preamble, uc.SubPreamble),
+                          (M.ExplicitComment, uc.SubExplicitComment), (M.ImplicitComment, uc.SubImplicitComment),
+                          (M.ParsingFailedBlock, SubFailed)):
+            _SUBCLS[base] = [base, sub, type("Sub2" + base.__name__, (sub,), {})]
+        _SUBCLS["as_sub"] = uc.as_sub
+    return _SUBCLS
+
+
+def rebuild_as(M, b, cls):
+    """the content of block b as an instance of cls (a class of b's family), through the public constructor"""
+    if isinstance(b, M.Entry):
+        n = cls(b.entry_type, b.key, b.fields, b.start_line, b.raw)
+    elif isinstance(b, M.String):
+        n = cls(b.key, b.value, b.start_line, b.raw)
+    elif isinstance(b, M.Preamble):
+        n = cls(b.value, b.start_line, b.raw)
+    elif isinstance(b, (M.ExplicitComment, M.ImplicitComment)):
+        n = cls(b.comment, b.start_line, b.raw)
+    else:
+        n = cls(b.error, b.start_line, b.raw)
+    n._parser_metadata = b.parser_metadata
+    return n
+
+
+def to_level(M, b, lv):
+    if lv == 0:
+        return b
+    sc = sub_classes(M)
+    if lv == 1 and type(b) is not M.ParsingFailedBlock:
+        n = sc["as_sub"](b)
+        assert type(n) is sc[type(b)][1], type(n)
+        return n
+    return rebuild_as(M, b, sc[type(b)][lv])
+
+
+def base_of(M, b):
+    """the library class a universe block is an instance of (exact class for plain blocks)"""
+    for base in (M.Entry, M.String, M.Preamble, M.ExplicitComment, M.ImplicitComment):
+        if isinstance(b, base):
+            return base
+    return M.ParsingFailedBlock
 
 
 def make_key(d):
@@ -214,12 +313,50 @@ def generate(rng, tier):
         n = rng.randint(1, 20)
         cases.append({"stream": "keyobj_random", "input": {"uni": 13, "keyobjs": [da, db],
                                                             "ops": [rand_op(rng, 13) for _ in range(n)]}})
+    # ---- user subclasses of the block classes next to plain blocks (drawn after everything above)
+    assigns = [lv for _, lv in SUB_FIXED8]
+    drawn = []
+    while len(drawn) < (2 if quick else 6):
+        lv = rand_levels(rng, 8)
+        if lv not in assigns + drawn:
+            drawn.append(lv)
+    for lv in assigns + drawn:
+        for h in itertools.product(ALPHA32, repeat=2):
+            cases.append({"stream": "sub_exh2", "input": {"uni": 8, "sub": lv, "ops": list(h)}})
+    for lv in (assigns[:1] + assigns[4:] + drawn[:1] if quick else assigns + drawn):
+        for h in itertools.product(ALPHA11, repeat=3):
+            cases.append({"stream": "sub_exh3", "input": {"uni": 8, "sub": lv, "ops": list(h)}})
+    if not quick:
+        for lv in assigns[:3]:
+            for h in itertools.product(ALPHA32, repeat=3):
+                cases.append({"stream": "sub_exh3w", "input": {"uni": 8, "sub": lv, "ops": list(h)}})
+        for lv in assigns[3:] + drawn[:2]:
+            for h in itertools.product(ALPHA20, repeat=3):
+                cases.append({"stream": "sub_exh3w", "input": {"uni": 8, "sub": lv, "ops": list(h)}})
+        for lv in assigns[:2] + drawn[:1]:
+            for h in itertools.product(ALPHA11, repeat=4):
+                cases.append({"stream": "sub_exh4", "input": {"uni": 8, "sub": lv, "ops": list(h)}})
+    for _ in range(500 if quick else 12000):
+        n = rng.randint(1, 30)
+        inp = {"uni": 13, "sub": rand_levels(rng, 13), "ops": [rand_op(rng, 13) for _ in range(n)]}
+        r = rng.random()
+        if r < 0.2:
+            ka = rng.choice(BOUNDARY_KEYS)
+            inp["keys"] = [ka, ka if rng.random() < 0.1 else rng.choice(BOUNDARY_KEYS)]
+        elif r < 0.3:
+            da = rng.choice(KEYOBJS)
+            inp["keyobjs"] = [da, da if rng.random() < 0.1 else rng.choice(KEYOBJS)]
+        if rng.random() < 0.15:
+            inp["ctor"] = [rng.randrange(13) for _ in range(rng.randint(0, 6))]
+        cases.append({"stream": "sub_random", "input": inp})
     return cases
 
 
-def build_universe(n, keys=None, keyobjs=None):
+def build_universe(n, keys=None, keyobjs=None, sub=None):
     from bibtexparser import model as M
     out = []
+    if sub is not None:
+        return [to_level(M, b, lv) for b, lv in zip(build_universe(n, keys, keyobjs), sub)]
 
     def key(k):
         j = "ab".index(k)
@@ -247,7 +384,7 @@ def build_universe(n, keys=None, keyobjs=None):
 def plain(b):
     """what a caller can see of one of its blocks, for cases without a model encoding (keys by identity and repr)"""
     k = getattr(b, "key", None)
-    fs = getattr(b, "fields", None) if type(b).__name__ == "Entry" else None
+    fs = getattr(b, "fields", None) if hasattr(b, "entry_type") else None
     return (type(b).__name__, id(k), repr(k), type(k).__name__, b.start_line, b.raw, getattr(b, "entry_type", None),
             None if fs is None else [(id(f), f.key, f.value, f.start_line) for f in fs],
             getattr(b, "value", None), getattr(b, "comment", None))
@@ -319,9 +456,25 @@ def impl(case):
     from bibtexparser import model as M
     from bibtexparser.library import Library
     inp = case["input"]
-    modelled = "keyobjs" not in inp
-    uni = build_universe(inp["uni"], inp.get("keys"), inp.get("keyobjs"))
-    uni_enc = [enc.enc_block(b) for b in uni] if modelled else [plain(b) for b in uni]
+    sub = inp.get("sub")
+    strkeys = "keyobjs" not in inp
+    # the model has no classes below the library's own: a subclass instance is encoded like a plain instance of its
+    # base class.  That is exact unless structurally equal twins differ in class (== is then False for Python)
+    modelled = strkeys and (sub is None or twins_consistent(sub))
+    uni = build_universe(inp["uni"], inp.get("keys"), inp.get("keyobjs"), sub)
+    level = {id(b): lv for b, lv in zip(uni, sub)} if sub is not None else {}
+
+    def enc_b(b):
+        if level.get(id(b), 0) == 0:
+            return enc.enc_block(b)
+        if type(b) is not sub_classes(M)[base_of(M, b)][level[id(b)]]:
+            return [99, -1]
+        return enc.enc_block(rebuild_as(M, b, base_of(M, b)))
+
+    def enc_uni():
+        return [enc_b(b) for b in uni] if strkeys else [(plain(b), type(b)) for b in uni]
+
+    uni_enc = enc_uni()
     oid = {id(b): j for j, b in enumerate(uni)}
     wid = {}
     keep = []                       # keeps every object we numbered alive
@@ -359,6 +512,7 @@ def impl(case):
     problems, known = [], []
     interesting = False
     tags = set()
+    seen_wrappers = set()
 
     def resolve(r):
         kind, i = r
@@ -420,6 +574,15 @@ def impl(case):
         outcome = [0] if r[0] == "ok" else [1, r[1]]
         outs.append(enc_views(outcome, after))
         tags.add(kind + (":raise" if r[0] == "exc" else ""))
+        if sub is not None:
+            for x in after["blocks"]:
+                if isinstance(x, M.DuplicateBlockKeyBlock) and id(x) not in seen_wrappers:
+                    seen_wrappers.add(id(x))
+                    keep.append(x)
+                    tags.add("sub:%s-duplicates-%s" % ("sub" if level.get(id(x.ignore_error_block)) else "plain",
+                                                       "sub" if level.get(id(x.previous_block)) else "plain"))
+            if any(level.get(id(x)) for x in after["entries"] + after["strings"]):
+                tags.add("sub:held-keyed")
         # ------------------------------------------------------------ oracle
         where = "call %d %s: " % (n, json.dumps(op))
         d = check_inv(M, after)
@@ -470,11 +633,17 @@ def impl(case):
                 problems.append(where + "replace moved other blocks")
             elif not (ab[idx] is new or (wraps(M, ab[idx], new) and op["fail"] == 0)):
                 problems.append(where + "position %d does not hold the new block" % idx)
-    if ([enc.enc_block(b) for b in uni] if modelled else [plain(b) for b in uni]) != uni_enc:
+    if enc_uni() != uni_enc:
         problems.append("a caller's block was modified")
+    if sub is not None:
+        tags.add("sub:all" if all(sub) else "sub:some")
+        if max(sub) == 2:
+            tags.add("sub:subclass-of-subclass")
+        if not twins_consistent(sub):
+            tags.add("sub:twins-differ-in-class(oracle-only)")
     if "keys" in inp:
         tags.add("keys:empty" if "" in inp["keys"] else "keys:boundary")
-    if not modelled:
+    if not strkeys:
         tags.add("keys:not-str")
     sx_in = [30, uni_enc, sx_ops] if modelled else None
     rec = {"sx_in": sx_in, "sx_out": implutil.r_ok(outs) if modelled else None, "key": json.dumps(inp, sort_keys=True),
@@ -502,3 +671,11 @@ def shrink(case):
                 c = json.loads(json.dumps(case))
                 del c["input"]["ops"][i]["refs"][j]
                 yield c
+    for j, lv in enumerate(inp.get("sub") or []):
+        if lv:
+            c = json.loads(json.dumps(case))
+            c["input"]["sub"][j] = 0
+            for a, b in TWINS:              # keep twins in one class, so that the model still applies
+                if j in (a, b) and max(a, b) < len(c["input"]["sub"]):
+                    c["input"]["sub"][a] = c["input"]["sub"][b] = 0
+            yield c
